@@ -87,3 +87,34 @@ func init() {
 	addControl(control{Prop: "C16", Name: "cut-written-with-early-return-order", Rule: "R16b", Kind: "refactor",
 		File: "merge.go", Old: "		if child == nil && idx < 0 && fieldName != \"*\" {", New: "		if named := idx < 0 && fieldName != \"*\"; named && child == nil {"})
 }
+
+func init() {
+	// ---------------- C10 ----------------
+	addControl(control{Prop: "C10", Name: "dict-store-without-copy", Rule: "R10b", Kind: "mutant", Quick: true,
+		File: "merge.go", Old: "to.fields.set(k, merged.cpy(ctx))", New: "_ = ctx\n		to.fields.set(k, merged)", Expect: "R10"})
+	addControl(control{Prop: "C10", Name: "append-without-copy", Rule: "R10b", Kind: "mutant",
+		File: "ucfg.go", Old: "f.setAt(l, parent, a[i].cpy(ctx))", New: "_ = ctx\n		f.setAt(l, parent, a[i])", Expect: "R10b/(*ucfg.fields).append"})
+	addControl(control{Prop: "C10", Name: "shallow-sub-copy", Rule: "R10b", Kind: "mutant", Quick: true,
+		File: "types.go", Old: "		fields.set(name, v)", New: "		_ = v\n		fields.set(name, f)", Expect: "R10b/(ucfg.cfgSub).cpy"})
+	addControl(control{Prop: "C10", Name: "replace-shares-source-array", Rule: "R10b", Kind: "mutant",
+		File: "merge.go", Old: "	fields.append(parent, a)\n	*to.fields = fields", New: "	_ = parent\n	fields.a = a\n	*to.fields = fields", Expect: "R10"})
+	addControl(control{Prop: "C10", Name: "embedded-config-adopted-again", Rule: "R10c", Kind: "mutant",
+		File: "merge.go", Old: "return cfgSub{c}.cpy(ctx), nil", New: "ret := cfgSub{c}\n			ret.SetContext(ctx)\n			return ret, nil", Expect: "R10c/ucfg.normalizeValue"})
+	addControl(control{Prop: "C10", Name: "copy-into-local-first", Rule: "R10b", Kind: "refactor", Quick: true,
+		File: "merge.go", Old: "to.fields.set(k, merged.cpy(ctx))", New: "cp := merged.cpy(ctx)\n		to.fields.set(k, cp)"})
+
+	// ---------------- C11 ----------------
+	addControl(control{Prop: "C11", Name: "memoise-on-dynamic-value", Rule: "R11a", Kind: "mutant", Quick: true,
+		File: "types.go", Old: "	id  cacheID\n	dyn dynValue\n}", New: "	id  cacheID\n	dyn dynValue\n	last value\n}", Expect: "R11a/(*ucfg.Config).String",
+		More: []edit{{"types.go", "	return opts.parsed.cachedValue(d.id, func() (value, error) {\n		return d.dyn.getValue(&d.cfgPrimitive, opts)\n	})", "	v, err := opts.parsed.cachedValue(d.id, func() (value, error) {\n		return d.dyn.getValue(&d.cfgPrimitive, opts)\n	})\n	d.last = v\n	return v, err"}}})
+	addControl(control{Prop: "C11", Name: "lazy-dictionary-in-hasfield", Rule: "R11a", Kind: "mutant",
+		File: "ucfg.go", Old: "	_, ok := c.fields.get(name)\n	return ok", New: "	if c.fields.d == nil {\n		c.fields.d = map[string]value{}\n	}\n	_, ok := c.fields.get(name)\n	return ok", Expect: "R11a/(*ucfg.Config).HasField"})
+	addControl(control{Prop: "C11", Name: "non-atomic-sequence", Rule: "R11b", Kind: "mutant", Quick: true,
+		File: "types.go", Old: "seq := atomic.AddInt32(&spliceSeq, 1)", New: "spliceSeq++\n	seq := spliceSeq\n	_ = atomic.LoadInt32", Expect: "R11b/"})
+	addControl(control{Prop: "C11", Name: "metadata-stamped-on-read", Rule: "R11a", Kind: "mutant",
+		File: "getset.go", Old: "	if v == nil {\n		return nil, raiseMissing(c, p.String())\n	}\n	return v, nil", New: "	if v == nil {\n		return nil, raiseMissing(c, p.String())\n	}\n	if opts.meta != nil {\n		v.setMeta(opts.meta)\n	}\n	return v, nil", Expect: "R11a/(*ucfg.Config).Int"})
+	addControl(control{Prop: "C11", Name: "reference-path-rewritten", Rule: "R11c", Kind: "mutant",
+		File: "variables.go", Old: "	env := opts.env\n\n	if ok :=", New: "	env := opts.env\n	r.Path.sep = opts.pathSep\n\n	if ok :=", Expect: "R11c/(*ucfg.reference).resolveRef"})
+	addControl(control{Prop: "C11", Name: "has-via-getfield", Rule: "R11a", Kind: "refactor", Quick: true,
+		File: "ucfg.go", Old: "	p := parsePathIdx(name, idx, opts)\n	return p.Has(c, opts)\n}", New: "	p := parsePathIdx(name, idx, opts)\n	ok, err := p.Has(c, opts)\n	if err != nil {\n		return false, err\n	}\n	return ok, nil\n}"})
+}
